@@ -906,7 +906,71 @@ def rule_cursor(ck, facts):
             ck.bad(R, key2, "%s pops the closure-state stack before it looks up the entry whose cursor it resets: the reset lands on the caller's state that becomes active again, not on the closure that returns, so the caller's later cells are addressed from offset 0 (cell 3 aliases cell 2 on WASM only)" % f.short, f.where())
     ck.floor(R, "closure_cursor_resets", m, 1)
 
+
+def rule_emission_order(ck, facts):
+    """alternatives are emitted in the order in which their code is placed"""
+    from ..cfg import dominators
+
+    R = "C05.site-table"
+    lang = facts.crate(roles.LANG)
+    n = 0
+    for f in lang.fns:
+        if "::compiler::bytecodegen" not in f.path or f.kind == "promoted" or "::test" in f.path:
+            continue
+        aggs = []
+        for b, blk in enumerate(f.bb):
+            if blk["c"]:
+                continue
+            for i, st in enumerate(blk["s"]):
+                if st[KIND] == "a" and st[5][0] == "agg" and st[5][1][0] == "array" and len(st[5][2]) >= 2 and all(o[0] in ("cp", "mv") and not o[1][1] and "Vec<" in f.local_ty(o[1][0]) and "Instruction" in f.local_ty(o[1][0]) for o in st[5][2]):
+                    locs = []
+                    for o in st[5][2]:
+                        L = o[1][0]
+                        for _ in range(4):  # `[a, b]` moves the vectors through temporaries
+                            ds = [s2 for _, s2 in f.all_stmts() if s2[KIND] == "a" and s2[4] == [L, []]]
+                            if len(ds) == 1 and ds[0][5][0] == "use" and ds[0][5][1][0] == "mv" and not ds[0][5][1][1][1]:
+                                L = ds[0][5][1][1][0]
+                            else:
+                                break
+                        locs.append(L)
+                    aggs.append((b, i, locs))
+        if not aggs:
+            continue
+        dom = dominators(f)
+        for ab, ai, order in aggs:
+            firsts = []
+            for L in order:
+                refs = []
+                for b, blk in enumerate(f.bb):
+                    if blk["c"] or b not in dom.get(ab, ()) and b != ab:
+                        pass
+                    for i, st in enumerate(blk["s"]):
+                        if not blk["c"] and st[KIND] == "a" and st[5][0] == "ref" and st[5][2] and st[5][1] == [L, []]:
+                            refs.append((b, i))
+                # the earliest mutable borrow: the one whose block dominates the blocks of all the others
+                first = None
+                for (b, i) in refs:
+                    if all((b in dom.get(b2, ()) and (b != b2 or i <= i2)) for (b2, i2) in refs):
+                        first = (b, i)
+                firsts.append(first)
+            if any(x is None for x in firsts):
+                continue
+            n += 1
+            owner = f.root.split("::")[-1]
+            key = "emission-order|%s" % owner
+            ok = True
+            for (b1, i1), (b2, i2) in zip(firsts, firsts[1:]):
+                if not (b1 in dom.get(b2, ()) and (b1 != b2 or i1 < i2)):
+                    ok = False
+            if ok:
+                ck.ok(R, key, {"alternatives": len(order)})
+            else:
+                ck.bad(R, key, "%s places the code of its alternatives in one order (the array that is appended to the output) and fills them in another: whatever the emission records per instruction on the side — the ring length of each `Delay` in `delay_sizes`, which the VM assigns to the k-th Delay in code order — ends up attached to the other alternative's instruction (a delay in the then-branch runs with the length of the else-branch's delay and writes past its cell)" % f.short, f.where(f.stmts(ab)[ai]))
+    ck.floor(R, "alternative_placements", n, 1)
+
+
 def run(ck, facts, tier):
+    rule_emission_order(ck, facts)
     from ..rules import scratchlocal as _sl
 
     _cov = roles.wasm_lowering(facts)
